@@ -7,7 +7,7 @@ From FositeModel Require Import Base.Str Model.Scope Model.Core Model.Flows Proo
 Theorem C09_access_token_truth :
   forall cfg s key tampered scopes p,
   introspect_access cfg s key tampered scopes = Some p <->
-  exists k r, key = Some k /\ access (st s) k = Some r /\
+  exists k r, key = Some k /\ lookup_access (st s) (Some k) = Some r /\
     expired (s_exp_at (r_sess r)) (r_at r) (cf_life_at cfg) (now s) = false /\ tampered = false /\
     match_scopes cfg (r_gscopes r) scopes = true /\
     p = {| pl_use := KAccess; pl_client := r_client r; pl_subject := s_subject (r_sess r);
@@ -37,7 +37,7 @@ Print Assumptions C09_hint_irrelevant.
    reported active again, after any history *)
 Theorem C09_inactive_stays_inactive :
   forall cfg s h i e tampered scopes,
-  Inv s -> nth_error (log s) i = Some e -> access (st s) (i_key e) = None -> rt_dead (st s) (i_key e) ->
+  Inv s -> nth_error (log s) i = Some e -> i_kind e <> KImplicit -> access (st s) (i_key e) = None -> rt_dead (st s) (i_key e) ->
   introspect_access cfg (run cfg s h) (Some (i_key e)) tampered scopes = None /\
   introspect_refresh cfg (run cfg s h) (Some (i_key e)) tampered scopes = None.
 Proof. exact inactive_forever. Qed.
